@@ -294,6 +294,10 @@ class TrajectoryStore:
         created: datetime | None = None
         """Creation time global attribute value."""
 
+        species_by_file: list[list[Species] | None] | None = None
+        """For merged stores: the species dimension of each constituent file
+        (the files of a merged store need not share one)."""
+
     active_in_thread: int | None = None
     """Thread ID of active TrajectoryStore instance, if any. Multi-threaded
     access is not allowed. This attribute is used to check for this."""
@@ -1478,6 +1482,7 @@ class TrajectoryStore:
             traj_dim=traj_dim,
             traj_var=traj_var,
             species=species,
+            species_by_file=[self._retrieve_nc_species_values(ds) for ds in dataset],
             groups=groups,
             size_index=list(itertools.accumulate([len(td) for td in traj_dim])),
             title=title,
@@ -1644,6 +1649,12 @@ class TrajectoryStore:
                 group_index = index - size_index[file_index]
             group = nc_files.groups[fs_name][file_index]
 
+            # Species dimension of the file we are reading from: the files of
+            # a merged store may have been created with different species.
+            species = nc_files.species
+            if nc_files.species_by_file is not None:
+                species = nc_files.species_by_file[file_index]
+
             # Read data from NetCDF variables.
             for name, field in fs.items():
                 if name not in group.variables:
@@ -1655,7 +1666,7 @@ class TrajectoryStore:
                     group_index,
                     name,
                     field,
-                    nc_files.species or [],
+                    species or [],
                 )
                 data[name] = val
                 if Dimension.POINT in field.dimensions and npoints is None:
